@@ -147,6 +147,8 @@ pub struct World<S: Sut> {
     /// some delivery of this history overtook a causal dependency
     pub ever_noncausal: bool,
     pub past: Vec<Vec<S>>,
+    /// actor identity each replica edits through (learned from the script's Gen actions)
+    pub actors: Vec<Option<u8>>,
     pub ops: Vec<S::Op>,
     pub descs: Vec<String>,
     pub author: Vec<usize>,
@@ -206,6 +208,7 @@ impl<S: Sut> World<S> {
             noncausal: vec![false; n],
             ever_noncausal: false,
             past: (0..n).map(|_| vec![S::new()]).collect(),
+            actors: vec![None; n],
             ops: vec![],
             descs: vec![],
             author: vec![],
@@ -276,6 +279,9 @@ impl<S: Sut> World<S> {
                     ps[*old % ps.len()].clone()
                 };
                 self.sh.next_op_id = self.ops.len();
+                if !self.cfg.misuse {
+                    self.actors[r] = Some(*actor);
+                }
                 let sh_backup = self.sh.clone();
                 let Some(g) = self.reps[r].gen(*actor, cmd, &mut self.sh, &old_state) else {
                     self.sh = sh_backup;
@@ -640,12 +646,12 @@ impl<S: Sut> World<S> {
             }
         }
         // a context derived now for the replica's own actor must carry its next unused dot
-        if r < self.cfg.nrep {
-            if let Some((dot, cclk, rclk)) = self.reps[r].next_dot(r as u8) {
+        if let Some(me) = self.actors.get(r).cloned().flatten() {
+            if let Some((dot, cclk, rclk)) = self.reps[r].next_dot(me) {
                 self.st.ev("ctx_next_dot");
-                let idx = if S::NAME == "MV" { self.sh.nwrites[r] } else { self.sh.ndots[r] };
-                if dot != (r as u8, idx + 1) {
-                    return Err(self.v("ctx", k, format!("r{r}: derive_add_ctx({r}) would hand out dot {dot:?}; actor {r} has issued {idx} dots")));
+                let idx = if S::NAME == "MV" { self.sh.nwrites[me as usize] } else { self.sh.ndots[me as usize] };
+                if dot != (me, idx + 1) {
+                    return Err(self.v("ctx", k, format!("r{r}: derive_add_ctx({me}) would hand out dot {dot:?}; actor {me} has issued {idx} dots")));
                 }
                 let mut exp = rclk.clone();
                 cjoin(&mut exp, dot);
@@ -1049,12 +1055,12 @@ impl<S: Sut> World<S> {
                 return Err(self.v("shadow", self.know[r], format!("replica r{r} and its serde-restored shadow diverged:\n   original {}\n   shadow   {}", dump(&self.reps[r]).show(), dump(&self.shadows[i].1).show())));
             }
             // ops generated from either must be identical
-            if r < self.cfg.nrep {
+            if let Some(me) = self.actors[r] {
                 let mut sh1 = self.sh.clone();
                 let mut sh2 = self.sh.clone();
                 let probe = S::random_cmd(&mut crate::rng::Rng::new(self.ops.len() as u64), &self.sh);
-                let g1 = self.reps[r].gen(r as u8, &probe, &mut sh1, &self.reps[r]);
-                let g2 = self.shadows[i].1.gen(r as u8, &probe, &mut sh2, &self.shadows[i].1);
+                let g1 = self.reps[r].gen(me, &probe, &mut sh1, &self.reps[r]);
+                let g2 = self.shadows[i].1.gen(me, &probe, &mut sh2, &self.shadows[i].1);
                 if g1.map(|g| dump(&g.op)) != g2.map(|g| dump(&g.op)) {
                     return Err(self.v("shadow", self.know[r], format!("replica r{r} and its restored shadow generate different ops")));
                 }
